@@ -82,7 +82,9 @@ void PacketWriter::write(PDU& pdu, const struct timeval& tv) {
 }
 
 void PacketWriter::init(const string& file_name, int link_type) {
-    handle_ = pcap_open_dead(link_type, 65535);
+    // Frames are written whole, so declare the largest snapshot length libpcap
+    // accepts (262144); readers truncate frames longer than the declared one
+    handle_ = pcap_open_dead(link_type, 262144);
     if (!handle_) {
         throw pcap_open_failed();
     }
